@@ -73,7 +73,7 @@ func (auth *Authenticator) AuthenticateCookie(rq *http.Request, response http.Re
 	if err != nil {
 		return nil, err
 	}
-	if user == nil || session.SessionUUID != user.GetSessionUUID() {
+	if user == nil || user.Disabled() || session.SessionUUID != user.GetSessionUUID() {
 		base.InfofCtx(auth.LogCtx, base.KeyAuth, "Session no longer valid for user %s", base.UD(session.Username))
 		return nil, base.HTTPErrorf(http.StatusUnauthorized, "Session no longer valid for user")
 	}
@@ -170,6 +170,10 @@ func (auth *Authenticator) GetSession(sessionID string) (*LoginSession, User, er
 		return nil, nil, err
 	}
 	if user == nil {
+		return nil, nil, base.ErrNotFound
+	}
+	// a session of a disabled user is not valid, even if it was created before the user was disabled
+	if user.Disabled() {
 		return nil, nil, base.ErrNotFound
 	}
 	if session.SessionUUID != user.GetSessionUUID() {
